@@ -499,7 +499,7 @@ class Check:
                     bad = "trace rejected by %s" % ctx["validate"][0]
             elif ctx.get("judge") == "outcome":
                 recs = [e for e in evs if e.get("ev") == "call-end" and "outcome" in e]
-                if any(e["outcome"] not in ("value", "error") or e.get("alloc", 0) > 33554432 + 64 * e.get("len", 0) for e in recs):
+                if any(e["outcome"] not in ("value", "error") or e.get("alloc", 0) > 33554432 + 64 * e.get("len", 0) or e.get("read", 0) > 65536 + 8 * e.get("len", 0) or e.get("retained", 0) > 2097152 for e in recs):
                     bad = "call violates the outcome contract"
             else:
                 if any(e.get("agree") is False for e in evs):
